@@ -762,8 +762,8 @@ Plan gen_c10(uint64_t seed, const GenOpts &o) {
   StartSpec s = simple_start(g, 0);
   auto fill = [&](RedirSpec &r, int type, int stream) {
     r.type = type;
-    if (type == C.R_HANDLE) r.handle = stream == 0 ? (int) g.pick({ 1, 2, 3 }) : (int) g.pick({ 1, 2, 3 });
-    if (type == C.R_FILE) r.file = 1;
+    if (type == C.R_HANDLE) r.handle = (int) g.pick({ 1, 2, 3, 4, 5 });
+    if (type == C.R_FILE) r.file = stream == 0 ? (int) g.pick({ 1, 1, 5 }) : (int) g.pick({ 1, 1, 3, 4 });
     if (type == C.R_PATH) r.path = (int) g.pick({ 1, 4, 5 });
     // the "type unset but object given" spellings
     if ((type == C.R_HANDLE || type == C.R_FILE || type == C.R_PATH) && g.chance(30)) r.type = C.R_DEFAULT;
@@ -945,8 +945,46 @@ Plan gen_c20(uint64_t seed, const GenOpts &o) {
   World &w = g.p.w.k;
   w.preempt_num = (unsigned) g.pick({ 10, 30, 60, 100 });
   w.reoccupy_num = 0;
-  int scenario = (int) (seed % 3);
-  if (scenario == 0) {
+  int scenario = (int) (seed % 4);
+  if (scenario == 3) {
+    // thread 0: a child that closes its stdin at once; writes fail with the closed-pipe error while thread 1 starts children
+    // whose descriptors may re-use the numbers thread 0's handle gave up
+    ChildSpec a;
+    a.script.push_back(Step{ Step::CLOSE, 0, 0, 0 });
+    a.script.push_back(Step{ Step::SLEEP, 0, 300, 0 });
+    a.script.push_back(Step{ Step::EXIT, 0, 3, 0 });
+    g.add_child(a);
+    ChildSpec b;
+    b.script.push_back(Step{ Step::READ_EOF, 0, 0, 0 });
+    b.script.push_back(Step{ Step::WRITE, 1, 4, 0 });
+    b.script.push_back(Step{ Step::EXIT, 0, 4, 0 });
+    g.add_child(b);
+    StartSpec sa = simple_start(g, 0), sb = simple_start(g, 1);
+    sa.stop[0] = sb.stop[0] = g.C.S_WAIT; sa.stop[1] = sb.stop[1] = 1000; sa.stop[2] = sb.stop[2] = g.C.S_KILL; sa.stop[3] = sb.stop[3] = g.C.INFINITE_;
+    g.op(OP_NEW, 0, 0);
+    Op &s0 = g.op(OP_START, 0, 0); s0.spec = g.add_start(sa);
+    g.op(OP_SLEEP, -1, 0).a = 5;
+    g.op(OP_WRITE, 0, 0).a = 10;   // closed-pipe error: the handle gives up its stdin descriptor
+    g.op(OP_SLEEP, -1, 0).a = 30;
+    g.op(OP_WRITE, 0, 0).a = 18;   // must still be the closed-pipe error, not somebody else's stdin
+    g.op(OP_CLOSE, 0, 0).a = g.C.STREAM_IN;
+    g.op(OP_SLEEP, -1, 0).a = 20;
+    g.op(OP_WAIT, 0, 0).a = 2000;
+    g.op(OP_DESTROY, 0, 0);
+    int nb = (int) g.r.range(1, 3);
+    for (int k = 0; k < nb; k++) {
+      int h = 1 + k;
+      g.op(OP_NEW, h, 1);
+      if (k == 0) g.op(OP_SLEEP, -1, 1).a = g.pick({ 8, 12, 20 });
+      Op &s1 = g.op(OP_START, h, 1); s1.spec = g.add_start(sb);
+      g.op(OP_SLEEP, -1, 1).a = g.pick({ 30, 60, 100 });
+      Op &w1 = g.op(OP_WRITE, h, 1); w1.a = 7; w1.c = 1;
+      g.op(OP_CLOSE, h, 1).a = g.C.STREAM_IN;
+      Op &r1 = g.op(OP_READ, h, 1); r1.a = g.C.STREAM_OUT; r1.b = 16; r1.c = 1;
+      g.op(OP_WAIT, h, 1).a = 2000;
+      g.op(OP_DESTROY, h, 1);
+    }
+  } else if (scenario == 0) {
     // reader + writer thread on one child (echo), optionally a second reader on stderr
     ChildSpec c;
     c.script.push_back(Step{ Step::ECHO, 0, 0, g.pick({ 1, 64, 4096 }) });
